@@ -218,7 +218,9 @@ class RepoInterp(Interp):
         out = []
         from .absint import Obj
         for v, st in res:
-            if isinstance(v, Obj) and not v.cls.startswith("sds."):
+            is_ctor = (isinstance(e.func, ast.Name) and e.func.id in self.known_classes) or (
+                isinstance(e.func, ast.Attribute) and e.func.attr in self.known_classes)
+            if is_ctor and isinstance(v, Obj) and not v.cls.startswith("sds.") and v.line == e.lineno:
                 cn = self.ctx.classname(self.mi, e.func)
                 if cn != v.cls:
                     v = Obj(cn, v.fields, v.line)
